@@ -240,6 +240,12 @@ def _traces(names):
 
 import tracecheck  # noqa: E402
 
-EXTRA = {'C02': _traces(None), 'C03': _traces(None), 'C09': _traces(['add_dup', 'topack', 'topack_nh', 'topack_nh_rt0', 'topack_multi', 'import_same']),
+def _pages(ck, tier):
+    import c16
+    c16.page_boundaries(ck, pid=ck.pid)
+
+
+EXTRA = {'C02': _traces(None), 'C03': _traces(None),
+         'C09': (lambda ck, tier: (_traces(['add_dup', 'topack', 'topack_nh', 'topack_nh_rt0', 'topack_multi', 'import_same'])(ck, tier), _pages(ck, tier))),
          'C10': (lambda ck, tier: (_traces(['pack_clean', 'pack_auto', 'repack', 'repack_keep'])(ck, tier), _estimate(ck, tier))), 'C11': _traces(['delete', 'repack', 'repack_keep']),
          'C13': (lambda ck, tier: (_traces(tracecheck.NOREPACK_SCENARIOS)(ck, tier), _pick_pack(ck, tier))), 'C14': (lambda ck, tier: (_traces(['import_same', 'import_diff', 'import_same_stream', 'import_diff_stream'])(ck, tier), _import_plan(ck, tier)))}
